@@ -100,6 +100,22 @@ def _module(pid):
 
 def _work(arg):
     pid, tier, unit = arg
+    cov = None
+    covdir = os.environ.get("VERIF_COVERAGE")
+    if covdir:   # development aid: line/branch coverage of valida achieved by the exploration (tools/coverage.sh)
+        import coverage
+        cov = coverage.Coverage(data_file=os.path.join(covdir, ".coverage"), data_suffix=True, branch=True,
+                                include=[os.path.join(os.environ.get("VERIF_REPO", "/repo"), "valida", "*")])
+        cov.start()
+    try:
+        return _work2(pid, tier, unit)
+    finally:
+        if cov is not None:
+            cov.stop()
+            cov.save()
+
+
+def _work2(pid, tier, unit):
     try:
         mod = _module(pid)
         res = mod.run_unit(unit, tier)
